@@ -79,6 +79,7 @@ PROPS = {
         "units": [
             regress("C05"),
             {"run": "^TestC05$", "quick": 1, "thorough": 1, "rapid": False},
+            {"run": "^TestC05Outs$", "quick": 6000, "thorough": 60000},
         ],
     },
     "C06": {
@@ -259,6 +260,7 @@ PROPS = {
             {"run": "^TestC17Float32$", "quick": 1, "thorough": 1, "rapid": False},
             {"run": "^TestC17Int64Float64$", "quick": 20000, "thorough": 200000},
             {"run": "^TestC17Varints$", "quick": 20000, "thorough": 200000},
+            {"run": "^TestC17Slices$", "quick": 20000, "thorough": 200000},
         ],
     },
 }
